@@ -71,6 +71,7 @@ KNOWN_PROBES = [
     ('C01-explicit-tagged-extension-addition', 'EXPLICIT TAGS', 'T ::= SEQUENCE { a INTEGER, ..., v [6] OCTET STRING OPTIONAL }'),
     ('C01-list-default', 'AUTOMATIC TAGS', 'T ::= SEQUENCE { t SET OF INTEGER DEFAULT {} }\nU ::= SEQUENCE { u SEQUENCE OF INTEGER (0..5) DEFAULT {} }'),
     ('C01-undefined-value-reference', 'AUTOMATIC TAGS', 'Good ::= INTEGER (0..5)\nun2 Good ::= missing-val'),
+    ('C01-default-of-qualified-type', 'AUTOMATIC TAGS', 'Rec ::= SEQUENCE { d Mk-b.Level DEFAULT 3 }\nEND\nMk-b DEFINITIONS AUTOMATIC TAGS ::= BEGIN\nLevel ::= INTEGER (0..9)'),
 ]
 
 
@@ -219,6 +220,17 @@ def build_cases(ck):
                 % (k, k, k, k, k, rng.randint(-9, 10 ** 12), k, k, k, k, k, k, k, k, k))
         cases.append({'op': 'compile', 'sources': ['Mq%d DEFINITIONS AUTOMATIC TAGS ::= BEGIN\n%s\nEND\n' % (k, body)],
                       'config': dict(config_of(rng), no_std_compliant_bindings=(k % 2 == 0)), 'text': True, '_fam': 'choice-values', '_tags': [], '_known': None})
+    # module-qualified references (Mod.Type) that are not also imported by name, in every position a type can take; module names
+    # with capital humps and digits, so that the path is built from the same mangling as the `pub mod` line
+    for k, geo in enumerate(['Geo-Defs', 'GeoV2Defs', 'X509v3-Ext', 'ABCDefs9']):
+        for tagging in (['AUTOMATIC TAGS'] if quick else ['AUTOMATIC TAGS', 'EXPLICIT TAGS', 'IMPLICIT TAGS']):
+            a = ('%s DEFINITIONS %s ::= BEGIN\nPoint ::= SEQUENCE { x INTEGER, y INTEGER }\nLevel ::= INTEGER (0..9)\nKind ::= ENUMERATED { a, b }\nEND\n'
+                 % (geo, tagging))
+            b = ('Mq%dUser DEFINITIONS %s ::= BEGIN\nPath ::= SEQUENCE OF %s.Point\nBag ::= SET OF %s.Level\nAlias ::= %s.Kind\n'
+                 'Lim ::= %s.Level (0..5)\nTagged ::= [APPLICATION 7] %s.Point\n'
+                 'Rec ::= SEQUENCE { p %s.Point, l SEQUENCE OF %s.Level, m SEQUENCE (SIZE (1..3)) OF %s.Point OPTIONAL, t [5] %s.Kind }\n'
+                 'Pick ::= CHOICE { p %s.Point, ks SET OF %s.Kind }\nEND\n' % ((k, tagging) + (geo,) * 11))
+            add([a, b] if rng.random() < 0.5 else [b, a], 'qualified-references')
     for slug, tagging, body in KNOWN_PROBES:
         add(['Mk DEFINITIONS %s ::= BEGIN\n%s\nEND\n' % (tagging, body)], 'known-probe', known=slug)
     return cases
